@@ -2108,6 +2108,12 @@ class _ChunkedTransferDecoder:
 
         # eolIndex in this part of code is equal to 0
 
+        # Count the terminating CRLF exactly as the incomplete-data branch
+        # above anticipates it, so that the limit does not depend on whether
+        # the CR and the LF arrive together.
+        if self._receivedTrailerHeadersSize + 2 > self._maxTrailerHeadersSize:
+            raise _MalformedChunkedDataError("Trailer headers data is too long.")
+
         data = memoryview(self._buffer)[2:].tobytes()
 
         del self._buffer[:]
